@@ -22,8 +22,9 @@
     guards), `msg_identity_same_as_no_catalogue` (the same bytes as the run without a bundle).
   {plural}: `execCmd_msg_plural_eq_msgRender` for a message that is ONE {plural} with a flat case and a flat
   default (what `pomsg.Validate` accepts), with the agreement of the two placeholder searches as hypothesis
-  `hpick : PickAgrees …`, which `pickAgrees_plural` proves for that shape.  Outside: other plural shapes; the
-  identity translation [msgid, msgid_plural] of a plural message over `execCmd`.
+  `hpick : PickAgrees …`, which `pickAgrees_plural` proves for that shape.  The identity translation of such a message under the two-form
+  selector: `msg_plural_identity_translation`, `msg_plural_identity_same_as_no_catalogue`.  Outside: other plural
+  shapes; the PO-string form (msgid / msgid_plural through `Msg.parts`) of the plural identity.
 -/
 import SoyVerif.Props.C11
 import SoyVerif.Lemmas.ExecRefine
@@ -837,6 +838,125 @@ theorem pickAgrees_plural (g : GEnv) (esc : Bool) (call : Registry.Tmpl → Run)
       obtain ⟨run, h1, h2⟩ := hDd
       exact ⟨run, by rw [h1]; rfl, h2⟩
 
+/-! ### the identity translation of a plural message -/
+
+/-- `renderTs_identityParts` when the placeholder search of `R` is the search in a flat list `L` -/
+theorem renderTs_identityParts_in (src : MsgPhBody → Bytes) (ρ : Bytes → Bytes) (ν : Bytes → Int) (sel : Int → Int)
+    (R L : List RPart) (hlook : ∀ n, Msg.placeholder n R = Msg.findSrc n L) (hu : NamesAgree ρ L) :
+    ∀ (rs : MsgParts), flatBody rs = true → (∀ x ∈ toR src rs, x ∈ L) →
+      Msg.renderTs ρ ν sel R (toT (identityParts rs)) = some (Msg.renderSrcList ρ ν (toR src rs))
+  | .nil, _, _ => rfl
+  | .text _ t r, hf, hsub => by
+    have ih := renderTs_identityParts_in src ρ ν sel R L hlook hu r (by simpa [flatBody] using hf)
+      (fun x hx => hsub x (by simp [toR, hx]))
+    simp only [identityParts, toT, toR, Msg.renderTs, Msg.renderT, ih, Msg.renderSrcList, Msg.renderSrc]
+  | .ph _ name b r, hf, hsub => by
+    have ih := renderTs_identityParts_in src ρ ν sel R L hlook hu r (by simpa [flatBody] using hf)
+      (fun x hx => hsub x (by simp [toR, hx]))
+    have hmem : RPart.ph name (src b) ∈ L := hsub _ (by simp [toR])
+    obtain ⟨s', hs', hm'⟩ := Msg.findSrc_of_mem name (src b) L hmem
+    simp only [identityParts, toT, toR, Msg.renderTs, Msg.renderT, ih, Msg.renderSrcList, Msg.renderSrc,
+      hlook name, hs', Option.map_some, hu name s' (src b) hm' hmem]
+  | .plural .., hf, _ => by simp [flatBody] at hf
+
+/-- the identity translation of `{plural $e}{case 1}C{default}D{/plural}`: one plural part with the two forms
+    [identity of C, identity of D] -/
+def pluralIdentity (vn : Bytes) (C D : MsgParts) : MParts :=
+  .cons (.plural vn (.cons (identityParts C) (.cons (identityParts D) .nil))) .nil
+
+/-- the two-form selector: n = 1 → form 0, else form 1 -/
+def twoForm (n : Int) : Int := if n == 1 then 0 else 1
+
+/-- Model/MsgRender: the identity translation of the one-plural message under the two-form selector renders
+    what the source renders -/
+theorem render_plural_identity (src : MsgPhBody → Bytes) (ρ : Bytes → Bytes) (ν : Bytes → Int) (vn s : Bytes) (C D : MsgParts)
+    (hC : flatBody C = true) (hD : flatBody D = true) (hu : NamesAgree ρ (toR src D ++ toR src C))
+    (sel : Int → Int) (hsel : ∀ n, sel n = twoForm n) :
+    Msg.renderTranslated ρ ν sel (pluralR src vn s 1 C D)
+        [.plural vn (toTCases (.cons (identityParts C) (.cons (identityParts D) .nil)))] =
+      some (Msg.renderSource ρ ν (pluralR src vn s 1 C D)) := by
+  have hlook : ∀ n, Msg.placeholder n (pluralR src vn s 1 C D) = Msg.findSrc n (toR src D ++ toR src C) :=
+    fun n => Msg.placeholder_poPlural n vn s 1 _ _ (isFlat_toR src C) (isFlat_toR src D)
+  have hc := renderTs_identityParts_in src ρ ν sel _ _ hlook hu C hC (fun x hx => by simp [hx])
+  have hd := renderTs_identityParts_in src ρ ν sel _ _ hlook hu D hD (fun x hx => by simp [hx])
+  have hfn : Msg.findPluralNode vn (pluralR src vn s 1 C D) = some s := by simp [pluralR, Msg.findPluralNode]
+  unfold Msg.renderTranslated
+  rw [Msg.renderTs, Msg.renderTs, Msg.renderT]
+  simp only [hfn, hsel, twoForm, toTCases]
+  simp only [Msg.renderSource, pluralR, Msg.renderSrcList, Msg.renderSrc, Msg.renderSrcCases, List.append_nil] at hc hd ⊢
+  by_cases h1 : (ν s == 1) = true
+  · simp only [h1, if_true, Int.lt_irrefl, if_false, Int.toNat_zero, Msg.renderTCase]
+    rw [hc]
+    simp
+  · simp only [h1, if_false, Bool.false_eq_true]
+    have : ¬ ((1 : Int) < 0) := by decide
+    simp only [this, if_false]
+    show (match Msg.renderTCase ρ ν sel _ _ (1 : Int).toNat, some [] with | some a, some b => some (a ++ b) | _, _ => none) = _
+    have e : (1 : Int).toNat = 1 := rfl
+    rw [e, Msg.renderTCase, Msg.renderTCase, hd]
+    simp
+
+/-- C11 `identity_translation_plural` over `execCmd`: with the identity translation of the one-plural message
+    installed and the two-form selector, the {msg} command appends exactly `Msg.renderSource` — what it appends
+    with no bundle (`execCmd_msg_plural_eq_msgRender`, `none` branch) -/
+theorem msg_plural_identity_translation (g : GEnv) (esc : Bool) (call : Registry.Tmpl → Run) (src : MsgPhBody → Bytes)
+    (ρ : Bytes → Bytes) (ν : Bytes → Int) (p id : Nat) (x y : Bytes) (z : Nat) (ctx : Scope) (st : St)
+    (pp : Nat) (vn : Bytes) (ve : Expr) (cp cbp : Nat) (C : MsgParts) (dp : Nat) (D : MsgParts) (s : Bytes)
+    (hC : flatBody C = true) (hD : flatBody D = true)
+    (hwC : AllPh (fun b => Writes (execPh g esc call b) (push ctx st).1 (push ctx st).2.heap (ρ (src b))) C)
+    (hwD : AllPh (fun b => Writes (execPh g esc call b) (push ctx st).1 (push ctx st).2.heap (ρ (src b))) D)
+    (i : Int64) (hval : ∀ st', st'.heap = (push ctx st).2.heap → ∃ st1, evalIn g ve (push ctx st).1 st' = some (.int i, st1))
+    (hν : ν s = i.toInt) (hu : NamesAgree ρ (toR src D ++ toR src C))
+    (b : MsgBundle) (hb : g.msgs = some b) (hid : b.message id = some (pluralIdentity vn C D))
+    (hsel : ∀ n, b.pluralCase n = twoForm n) :
+    (execCmd g esc call (.msg p id x y z (pluralBody pp vn ve cp 1 cbp C dp D)) ctx st).cls = .ok ∧
+    bufBytes (execCmd g esc call (.msg p id x y z (pluralBody pp vn ve cp 1 cbp C dp D)) ctx st).st.out =
+      bufBytes st.out ++ Msg.renderSource ρ ν (pluralR src vn s 1 C D) := by
+  have hpick := pickAgrees_plural g esc call src ρ (push ctx st).1 (push ctx st).2.heap pp vn ve cp 1 cbp C dp D s hC hD hwC hwD
+  have h := execCmd_msg_plural_eq_msgRender g esc call src ρ ν p id x y z ctx st pp vn ve cp 1 cbp C dp D s hC hD hwC hwD
+    i hval hν hpick
+  rw [hb] at h
+  simp only [hid] at h
+  have h2 := h _ rfl (by simp [flatCases, flatT_identityParts])
+  rw [render_plural_identity src ρ ν vn s C D hC hD hu b.pluralCase hsel] at h2
+  exact h2
+
+/-- the headline for plural messages: with the identity translation and the two-form selector installed the
+    {msg} appends byte for byte what it appends without a catalogue (`g` with no bundle) -/
+theorem msg_plural_identity_same_as_no_catalogue (g : GEnv) (esc : Bool) (call : Registry.Tmpl → Run) (src : MsgPhBody → Bytes)
+    (ρ : Bytes → Bytes) (ν : Bytes → Int) (p id : Nat) (x y : Bytes) (z : Nat) (ctx : Scope) (st : St)
+    (pp : Nat) (vn : Bytes) (ve : Expr) (cp cbp : Nat) (C : MsgParts) (dp : Nat) (D : MsgParts) (s : Bytes)
+    (hC : flatBody C = true) (hD : flatBody D = true)
+    (hwC : AllPh (fun b => Writes (execPh g esc call b) (push ctx st).1 (push ctx st).2.heap (ρ (src b))) C)
+    (hwD : AllPh (fun b => Writes (execPh g esc call b) (push ctx st).1 (push ctx st).2.heap (ρ (src b))) D)
+    (hwC0 : AllPh (fun b => Writes (execPh { g with msgs := none } esc call b) (push ctx st).1 (push ctx st).2.heap (ρ (src b))) C)
+    (hwD0 : AllPh (fun b => Writes (execPh { g with msgs := none } esc call b) (push ctx st).1 (push ctx st).2.heap (ρ (src b))) D)
+    (i : Int64) (hval : ∀ st', st'.heap = (push ctx st).2.heap → ∃ st1, evalIn g ve (push ctx st).1 st' = some (.int i, st1))
+    (hval0 : ∀ st', st'.heap = (push ctx st).2.heap →
+      ∃ st1, evalIn { g with msgs := none } ve (push ctx st).1 st' = some (.int i, st1))
+    (hν : ν s = i.toInt) (hu : NamesAgree ρ (toR src D ++ toR src C))
+    (b : MsgBundle) (hb : g.msgs = some b) (hid : b.message id = some (pluralIdentity vn C D))
+    (hsel : ∀ n, b.pluralCase n = twoForm n) :
+    (execCmd g esc call (.msg p id x y z (pluralBody pp vn ve cp 1 cbp C dp D)) ctx st).cls = .ok ∧
+    (execCmd { g with msgs := none } esc call (.msg p id x y z (pluralBody pp vn ve cp 1 cbp C dp D)) ctx st).cls = .ok ∧
+    bufBytes (execCmd g esc call (.msg p id x y z (pluralBody pp vn ve cp 1 cbp C dp D)) ctx st).st.out =
+      bufBytes (execCmd { g with msgs := none } esc call (.msg p id x y z (pluralBody pp vn ve cp 1 cbp C dp D)) ctx st).st.out := by
+  have h1 := msg_plural_identity_translation g esc call src ρ ν p id x y z ctx st pp vn ve cp cbp C dp D s hC hD hwC hwD
+    i hval hν hu b hb hid hsel
+  have hpick0 := pickAgrees_plural { g with msgs := none } esc call src ρ (push ctx st).1 (push ctx st).2.heap
+    pp vn ve cp 1 cbp C dp D s hC hD hwC0 hwD0
+  have h0 := execCmd_msg_plural_eq_msgRender { g with msgs := none } esc call src ρ ν p id x y z ctx st pp vn ve cp 1 cbp C dp D s
+    hC hD hwC0 hwD0 i hval0 hν hpick0
+  simp only at h0
+  exact ⟨h1.1, h0.1, by rw [h1.2, h0.2]⟩
+
+/-- `s.eval($k)`: the value of the variable, the state unchanged but for the counter -/
+theorem evalIn_var (g : GEnv) (q : Nat) (k : Bytes) (hk : (k == sIj) = false) (ctx : Scope) (st : St) :
+    evalIn g (.dataRef q k .nil) ctx st = some (lookup st.heap ctx k, { st with next := st.next }) := by
+  unfold evalIn
+  rw [evalE]
+  simp only [hk, Bool.false_eq_true, if_false, evalAccesses, eenv]
+
 /-! ### non-vacuity: `{msg}<b>{$x}</b>{/msg}` (placeholders START_BOLD, X, END_BOLD) with the translation
     `{X}: {START_BOLD}{END_BOLD}` — the hypotheses are satisfiable (html tags and a print of a variable are
     writers) and the {msg} command appends the reordered values -/
@@ -884,5 +1004,42 @@ example (call : Registry.Tmpl → Run) :
       rfl (fun h => by cases h) rfl, htmlTag_writes _ _ _ _ _ _ _, trivial⟩
   exact msg_identity_translation exGId true call exSrc exRho 0 7 [] [] 0 exBody [⟨0, false⟩] exSt (by decide) hw exNames
     exBundleId rfl (fun _ => 0) rfl
+
+/-! a plural message through the theorem: `{msg}{plural $n}{case 1}one{default}{$n}s{/plural}{/msg}` with the identity
+    translation [one | {N}s] and the two-form selector: n = 1 gives "one", n = 5 gives "5s" -/
+
+def plC : MsgParts := .text 3 [111, 110, 101] .nil
+def plD : MsgParts := .ph 5 [78] (.cmd (.print 5 (.dataRef 5 [110] .nil) [])) (.text 6 [115] .nil)
+def plBundle : MsgBundle := { message := fun _ => some (pluralIdentity [78] plC plD), pluralCase := twoForm }
+def plG : GEnv := { reg := [], globals := [], ij := none, msgs := some plBundle, tbl := [], oblig := [] }
+def plSt (n : Int64) : St := { heap := [⟨[([110], .int n)], false⟩], out := [], next := 5, foreign := 0 }
+def plSrc : MsgPhBody → Bytes := fun _ => [36, 110]
+
+theorem plNames (ρ : Bytes → Bytes) : NamesAgree ρ (toR plSrc plD ++ toR plSrc plC) := by
+  intro n s s' h h'
+  simp only [toR, plD, plC, plSrc, List.mem_append, List.mem_cons, RPart.ph.injEq, List.not_mem_nil, or_false,
+    reduceCtorEq, false_or] at h h'
+  rw [h.2, h'.2]
+
+theorem plExample (call : Registry.Tmpl → Run) (n : Int64) (txt : Bytes) (hs : str (.int n) = some txt) :
+    (execCmd plG true call (.msg 0 7 [] [] 0 (pluralBody 1 [78] (.dataRef 2 [110] .nil) 3 1 3 plC 4 plD)) [⟨0, false⟩] (plSt n)).cls = .ok ∧
+    bufBytes (execCmd plG true call (.msg 0 7 [] [] 0 (pluralBody 1 [78] (.dataRef 2 [110] .nil) 3 1 3 plC 4 plD)) [⟨0, false⟩] (plSt n)).st.out =
+      Msg.renderSource (fun _ => htmlEscape txt) (fun _ => n.toInt) (pluralR plSrc [78] [36, 110] 1 plC plD) := by
+  have hwD : AllPh (fun b => Writes (execPh plG true call b) (push [⟨0, false⟩] (plSt n)).1 (push [⟨0, false⟩] (plSt n)).2.heap
+      ((fun _ => htmlEscape txt) (plSrc b))) plD :=
+    ⟨print_var_writes plG true call rfl 5 5 [110] (by decide) _ _ (.int n) txt rfl (fun h => by cases h) hs, trivial⟩
+  have h := msg_plural_identity_translation plG true call plSrc (fun _ => htmlEscape txt) (fun _ => n.toInt) 0 7 [] [] 0
+    [⟨0, false⟩] (plSt n) 1 [78] (.dataRef 2 [110] .nil) 3 3 plC 4 plD [36, 110] (by decide) (by decide) trivial hwD n
+    (fun st' h' => ⟨_, by rw [evalIn_var plG 2 [110] (by decide), h']; rfl⟩) rfl (plNames _) plBundle rfl rfl (fun _ => rfl)
+  simpa [plSt, bufBytes] using h
+
+example (call : Registry.Tmpl → Run) :
+    bufBytes (execCmd plG true call (.msg 0 7 [] [] 0 (pluralBody 1 [78] (.dataRef 2 [110] .nil) 3 1 3 plC 4 plD)) [⟨0, false⟩] (plSt 1)).st.out
+      = [111, 110, 101] ∧
+    bufBytes (execCmd plG true call (.msg 0 7 [] [] 0 (pluralBody 1 [78] (.dataRef 2 [110] .nil) 3 1 3 plC 4 plD)) [⟨0, false⟩] (plSt 5)).st.out
+      = [53, 115] := by
+  refine ⟨?_, ?_⟩
+  · rw [(plExample call 1 [49] (by decide)).2]; decide
+  · rw [(plExample call 5 [53] (by decide)).2]; decide
 
 end SoyVerif.Props.C11b
